@@ -66,7 +66,7 @@ def run(ck):
         ck.leanchecker(["NfcVerif.Props.C01"])
     model = Model("drv_t12")
 
-    nlay = 1500 if ck.thorough else 250
+    nlay = 3000 if ck.thorough else 250
     runs = []
     for i in range(nlay):
         kind = ("t2", "t2", "t1d", "t1s")[i % 4]
@@ -77,7 +77,10 @@ def run(ck):
         from sims.t12_tags import make_sim
         line, _, nd = read_line(kind, make_sim(lay))
         cap = nd.capacity if nd is not None else 0
-        for n in lengths(rng, cap, ck.thorough):
+        sweep = ck.thorough and i % 25 == 0 and cap <= 300
+        if sweep:
+            ck.count("layouts with every length 0..capacity+1")
+        for n in (range(0, cap + 2) if sweep else lengths(rng, cap, ck.thorough)):
             if n >= 255 and not lay["hdr3"]:
                 ck.count("skipped: 3-byte length field would lie on a reserved byte (outside the quantifier)")
                 continue
